@@ -156,7 +156,7 @@ pub fn main(args: &[String]) -> i32 {
     let thorough = args.iter().any(|a| a == "--thorough");
     let _ = arg_value(args, "--dummy");
     let mut out: BTreeMap<String, String> = BTreeMap::new();
-    let sizes: Vec<usize> = if thorough { vec![8, 512, 1023, 1024, 1025, 2048, 4096, 8192] } else { vec![512, 1023, 1024, 1025, 2048] };
+    let sizes: Vec<usize> = if thorough { vec![8, 512, 1023, 1024, 1025, 2048, 4096, 8192] } else { vec![512, 1023, 1024, 1025, 2048, 4096] };
     math_part::<f64::BaseElement>("f64", &mut out, &sizes);
     math_part::<f128::BaseElement>("f128", &mut out, if thorough { &sizes } else { &sizes[1..4] });
     let msizes: Vec<usize> = if thorough { vec![2, 512, 1024, 2048, 4096, 8192] } else { vec![512, 1024, 2048, 4096] };
